@@ -213,6 +213,39 @@ Proof.
     apply in_map_iff in Hcs. destruct Hcs as ([[nm' bytes'] i] & Heq & Hnum). cbn [fst snd] in Heq. inversion Heq; subst. clear Heq.
     apply in_number in Hnum. destruct Hnum as [_ E]. rewrite N.sub_0_r in E. rewrite map_map in Mq. rewrite <- (Only _ _ _ E Mq). lia.
 Qed.
+(* a path of the searched tree is a disk file that carries the literals (the soundness half, for any path - found_file_carries_the_literals is its
+   special case), hence: no matching file, no path, "not found" *)
+Lemma path_is_a_matching_file disk lits q j : In (q, j) (all_paths lits (tree_of_disk disk)) ->
+  exists nm bytes, nth_error disk (N.to_nat j) = Some (nm, bytes) /\ map (fun c => name_lit (norm_name c)) (comps nm) = map Some lits.
+Proof.
+  intros Hq. destruct (paths_sound _ _ _ _ Hq) as [R Mq]. unfold tree_of_disk in R. apply resolves_build in R. destruct R as (cs & Hcs & Ep).
+  apply in_map_iff in Hcs. destruct Hcs as ([[nm bytes] i] & Heq & Hnum). cbn [fst snd] in Heq. inversion Heq; subst. clear Heq.
+  apply in_number in Hnum. destruct Hnum as [_ E]. rewrite N.sub_0_r in E. exists nm, bytes. split; [exact E|]. rewrite map_map in Mq. exact Mq.
+Qed.
+Theorem no_match_is_not_found disk lits :
+  (forall n nm bytes, nth_error disk n = Some (nm, bytes) -> map (fun c => name_lit (norm_name c)) (comps nm) <> map Some lits) ->
+  search lits (tree_of_disk disk) = NotFound.
+Proof.
+  intros No. apply not_found_iff. destruct (all_paths lits (tree_of_disk disk)) as [|[q j] r] eqn:E; [reflexivity|exfalso].
+  destruct (path_is_a_matching_file disk lits q j) as (nm & bytes & Hn & M); [rewrite E; left; reflexivity|]. exact (No _ _ _ Hn M).
+Qed.
+(* two different files that both carry the literals: ambiguous *)
+Lemma two_paths_ambiguous (l:list (list (list N) * N)) a b : In a l -> In b l -> a <> b -> classify l = Ambiguous.
+Proof.
+  intros Ha Hb Ne. destruct l as [|x [|y r]]; [contradiction| |destruct x; reflexivity].
+  destruct Ha as [Ha|[]]. destruct Hb as [Hb|[]]. congruence.
+Qed.
+Theorem two_matches_are_ambiguous disk lits n1 nm1 bytes1 n2 nm2 bytes2 : files_wf (disk_files disk) -> n1 <> n2 ->
+  nth_error disk n1 = Some (nm1, bytes1) -> map (fun c => name_lit (norm_name c)) (comps nm1) = map Some lits ->
+  nth_error disk n2 = Some (nm2, bytes2) -> map (fun c => name_lit (norm_name c)) (comps nm2) = map Some lits ->
+  search lits (tree_of_disk disk) = Ambiguous.
+Proof.
+  intros WF Ne H1 M1 H2 M2. rewrite search_is_classify.
+  apply (two_paths_ambiguous _ (map norm_name (comps nm1), N.of_nat n1) (map norm_name (comps nm2), N.of_nat n2)).
+  - apply matching_file_is_a_path with bytes1; assumption.
+  - apply matching_file_is_a_path with bytes2; assumption.
+  - intros E. inversion E. lia.
+Qed.
 (* the premises hold somewhere: the one-file disk "ㄴ/ㄷ.t" is well formed and its file matches the literals 1, 2 *)
 Example wf_holds_somewhere : let disk := [([12596; 47; 12599; 46; 116]%N, [227; 132; 183]%N)] in
   files_wf (disk_files disk) /\ map (fun c => name_lit (norm_name c)) (comps [12596; 47; 12599; 46; 116]%N) = map Some [1; 2]%Z.
@@ -221,4 +254,4 @@ Proof.
   - intros cs i j [Hi|[]] [Hj|[]]. congruence.
   - intros cs ds i j [Hi|[]] [Hj|[]]. inversion Hi as [[Ec Ei]]. inversion Hj as [[E Ej]]. rewrite <- Ec in E. apply (f_equal (@length _)) in E. rewrite app_length in E. destruct ds; [reflexivity|cbn [length] in E; lia].
 Qed.
-Print Assumptions found_file_carries_the_literals. Print Assumptions matching_file_is_a_path. Print Assumptions not_found_means_no_match. Print Assumptions single_match_is_found.
+Print Assumptions found_file_carries_the_literals. Print Assumptions matching_file_is_a_path. Print Assumptions not_found_means_no_match. Print Assumptions single_match_is_found. Print Assumptions no_match_is_not_found. Print Assumptions two_matches_are_ambiguous.
